@@ -117,7 +117,7 @@ fn gen_lib(rng: &mut Rng) -> LibImage {
     };
     if rng.chance(1, 40) {
         // degenerate owned buffers
-        let (bw, bh) = *rng.pick(&[(0u32, 0u32), (0, 3), (3, 0), (1, 1)]);
+        let (bw, bh) = *rng.pick(&[(0u32, 0u32), (0, 3), (3, 0), (1, 1), (12_345_678, 0), (0, 87_654_321), (99_999, 0), (0, 4_294_967_295), (4_294_967_295, 0), (1_000_000, 0)]);
         return LibImage { bw, bh, pixels, view: if rng.chance(1, 2) { View::Owned } else { View::Ref } };
     }
     LibImage { bw, bh, pixels, view }
@@ -161,6 +161,10 @@ fn gen_sep(rng: &mut Rng, comments: bool) -> Vec<u8> {
                 b" \r",
                 b"-1",
                 b" created by harness",
+                b" a\rb",
+                b"1\r2 3",
+                b" C:\\images\\",
+                b"\\",
             ]);
             s.extend_from_slice(body);
             s.push(b'\n');
@@ -326,7 +330,7 @@ pub fn gen_scenario(seed: u64) -> (PnmScenario, &'static str, Option<String>) {
         };
         if !ok {
             self_check = Some(format!("reference disagrees with foreign writer: {:?} {:?}", r.header, match r.body {
-                RefBody::Unsure(s) => s,
+                RefBody::Unsure(s) | RefBody::Short(s) => s,
                 _ => "body mismatch",
             }));
         }
@@ -530,7 +534,15 @@ pub fn run(scn: &PnmScenario, record: bool) -> RunResult {
             let (w, h, px) = li.expected();
             let (sink, core) = SimSink::new(&scn.writer, p6_len(w, h) + 3 * (li.bw * li.bh) as usize, log.clone());
             let res = catch(|| drive_writer(scn.writer.stack, sink, WritePpm(li, None)));
-            bytes = std::mem::take(&mut core.borrow_mut().disk);
+            // only what was flushed is on the disk; what the sink merely accepted is lost
+            {
+                let mut c = core.borrow_mut();
+                if !c.pending.is_empty() {
+                    log.borrow_mut().ledger.add(K::unflushed_bytes_lost, c.pending.len() as u64);
+                    rr.probe("bytes accepted by the sink but never flushed were lost");
+                }
+                bytes = std::mem::take(&mut c.disk);
+            }
             let led = log.borrow().ledger.clone();
             match res {
                 Err(c) => {
@@ -722,8 +734,24 @@ pub fn run(scn: &PnmScenario, record: bool) -> RunResult {
             }
             _ => {}
         }
-        if !matches!(refv.body, RefBody::Unsure(_)) && ledger.storage_fired() > 0 {
+        if !matches!(refv.body, RefBody::Unsure(_) | RefBody::Short(_)) && ledger.storage_fired() > 0 {
             rr.probe("damaged file still well-formed (X applied after storage fault)");
+        }
+    }
+
+    // P: a raster shorter than its header announces holds no image of those dimensions;
+    // answering Ok would mean inventing pixels
+    if let (RefBody::Short(why), Some(out)) = (&refv.body, &base_out) {
+        let ok = matches!(out, PnmOut::Err(_));
+        rr.oracle("P", ok);
+        rr.probe("short raster (reference: error expected)");
+        if !ok {
+            let hd = refv.header.as_ref().unwrap();
+            rr.violate(Violation::new(
+                "P",
+                "invented-pixels",
+                format!("P{} file of {}x{}: {why} ({} raster bytes), yet parse_pnm answered {}", hd.fmt, hd.w, hd.h, bytes.len() - hd.raster.min(bytes.len()), out.brief()),
+            ));
         }
     }
 
@@ -759,7 +787,7 @@ pub fn run(scn: &PnmScenario, record: bool) -> RunResult {
     // G: a premature end-of-file answer followed by more data. Stopping there is right,
     // carrying on is right, an error is fine; an image that is neither the prefix's nor
     // the whole file's is not.
-    if eof_resumed > 0 && rd_err == 0 && eof_stop == 0 && !matches!(refv.body, RefBody::Unsure(_)) {
+    if eof_resumed > 0 && rd_err == 0 && eof_stop == 0 && !matches!(refv.body, RefBody::Unsure(_) | RefBody::Short(_)) {
         let at = core.borrow().resumed_at.unwrap_or(0);
         if let (Some(sout), Some(whole)) = (&streamed_out, &base_out) {
             let prefix = decode_plain(&bytes[..at]).ok().map(|r| observe(r, "", &None, &mut RunResult::default()));
@@ -784,7 +812,7 @@ pub fn run(scn: &PnmScenario, record: bool) -> RunResult {
     // F: a failing stream may cost the result, never falsify it. If the file on disk
     // is well-formed and the plain decode of it is right (X), then after a read error
     // the streamed decode answers with an error or with that very image.
-    if rd_err > 0 && !matches!(refv.body, RefBody::Unsure(_)) {
+    if rd_err > 0 && !matches!(refv.body, RefBody::Unsure(_) | RefBody::Short(_)) {
         if let (Some(b @ PnmOut::Ok { .. }), Some(sout)) = (&base_out, &streamed_out) {
             let ok = matches!(sout, PnmOut::Err(_)) || sout == b;
             rr.oracle("F", ok);
@@ -870,6 +898,7 @@ pub fn run(scn: &PnmScenario, record: bool) -> RunResult {
         rr.notes.insert("reference".into(), format!("header={:?} body={}", refv.header, match &refv.body {
             RefBody::Rgb(p) => format!("Rgb({} px)", p.len()),
             RefBody::Grey(g) => format!("Grey({} samples)", g.len()),
+            RefBody::Short(s) => format!("Short({s})"),
             RefBody::Unsure(s) => format!("Unsure({s})"),
         }));
         rr.notes.insert("parse_pnm".into(), base_out.as_ref().map_or("panicked".into(), |o| o.brief()));
